@@ -407,6 +407,7 @@ def run_tree_tie(ck, sq_cases, tag):
         elif parts and parts[0].lstrip("-").isdigit():
             res[int(parts[0])] = parts[1:]
     mism, notok, leaked, nstmt, located, npieces, nvals, unmodelled = [], [], [], 0, 0, 0, 0, 0
+    leak_cand = []
     by_site = {}
     pieces_of = {}
     for c in usable:
@@ -443,13 +444,20 @@ def run_tree_tie(ck, sq_cases, tag):
                     if want and want == body:
                         found = True
                 elif len(want) >= 3 and any(ch in want for ch in SPECIAL) and want in body and ".ident." not in rq["site"]:
-                    leaked.append((c, body))
+                    leak_cand.append((c, body))
         if rq.get("is_base"):
             continue
         located += 1 if found else 0
         bs = by_site.setdefault(rq["site"], [0, 0, 0])
         bs[0] += 1
         bs[1] += 1 if found else 0
+    # a text piece that the BASELINE statement carries as well is the planner's own text (thorough tier: the value ` ''` occurs in
+    # `mapFilter((k,v) -> v != '', ...`): only text pieces the marker's statement lacks count as leaked request bytes
+    for c, body in leak_cand:
+        bi = reqs[c["id"]].get("_base_req")
+        base_texts = set(b for st in pieces_of.get(bi, []) for k, b in st if k == "T") if bi is not None else set()
+        if body not in base_texts:
+            leaked.append((c, body))
     # piecewise comparison with the marker's segmented text
     notsubst, ncmp = [], 0
     for c in usable:
